@@ -51,8 +51,10 @@ def main():
         res["build_with_change"] = rc == 0
         touched = open(os.path.join(d, "patch.diff")).read()
         tests = subprocess.check_output(["meson", "test", "-C", "_build", "--list"], cwd=wt).decode().split()
-        names = [t.split(":")[-1].strip() for t in tests if t.strip() and t.strip() not in ("cimba", ":")]
-        names = sorted({n for n in names if n})
+        import re as _re
+        names = sorted({m.group(1) for t in tests for m in [_re.match(r"^(?:cimba:)?([a-z]+)$", t.strip())] if m and
+                        m.group(1) in ("buffer", "cimba", "condition", "coroutine", "data", "event", "hashheap", "logger", "mempool",
+                                       "objectqueue", "priorityqueue", "process", "random", "resource", "resourcepool")})
         if not full and "cmb_random" not in touched and "codegen" not in touched:
             names = [n for n in names if n != "random"]
         rc, out = sh(["meson", "test", "-C", "_build", "--no-rebuild"] + names, wt, timeout=3600)
